@@ -478,11 +478,20 @@ impl<'a> Unquote<'a> {
     pub fn to_cow(&self) -> Cow<'a, str> {
         let str_ref = self.inner.as_str();
         if self.is_quoted() {
-            if str_ref.find('\\').is_some() {
-                Cow::from(self.to_string())
-            } else {
-                // String is quoted but has no escapes.
-                Cow::from(&str_ref[1..str_ref.len() - 1])
+            // Skip the opening quote unless iteration already consumed it.
+            let body = match self.state {
+                UnquoteState::NotStarted => &str_ref[1..],
+                _ => str_ref,
+            };
+            // The value ends at the first closing quote (anything after it
+            // is ignored) or, if unterminated, at the end of the string.
+            match body.find(|c| c == '"' || c == QUOTE_ESCAPE_CHAR) {
+                None => Cow::from(body),
+                Some(end) if body[end..].starts_with('"') => {
+                    Cow::from(&body[..end])
+                }
+                // String has escapes before the closing quote.
+                Some(_) => Cow::from(self.to_string()),
             }
         } else {
             Cow::from(str_ref)
